@@ -181,28 +181,10 @@ func (u *Unit) constToVal(v constant.Value, t types.Type) Val {
 	panic(fmt.Sprintf("constant of type %s", t))
 }
 
-func isQuadParen(e ast.Expr) (ast.Expr, bool) {
-	p1, ok := e.(*ast.ParenExpr)
-	if !ok {
-		return nil, false
-	}
-	return isTripleParen(p1.X)
-}
-
-func isTripleParen(e ast.Expr) (ast.Expr, bool) {
-	p1, ok := e.(*ast.ParenExpr)
-	if !ok {
-		return nil, false
-	}
-	p2, ok := p1.X.(*ast.ParenExpr)
-	if !ok {
-		return nil, false
-	}
-	p3, ok := p2.X.(*ast.ParenExpr)
-	if !ok {
-		return nil, false
-	}
-	return p3.X, true
+// marked reports whether the parenthesised expression is the expansion of old(...) / atHead(...):
+// the generator writes a marker comment immediately before its opening parenthesis.
+func (env *specEnv) marked(p *ast.ParenExpr) string {
+	return env.u.E.parenMarks[p.Lparen]
 }
 
 func (env *specEnv) eval(e ast.Expr) Val {
@@ -213,22 +195,22 @@ func (env *specEnv) eval(e ast.Expr) Val {
 	}
 	switch x := e.(type) {
 	case *ast.ParenExpr:
-		if inner, ok := isQuadParen(x); ok {
+		switch env.marked(x) {
+		case "head":
 			if env.head == nil {
 				panic("atHead() used outside a loop body")
 			}
 			sub := *env
 			sub.st = env.head
-			return sub.eval(inner)
-		}
-		if inner, ok := isTripleParen(x); ok {
+			return sub.eval(x.X)
+		case "old":
 			if env.old == nil {
 				panic("old() used where no entry state exists")
 			}
 			sub := *env
 			sub.st = env.old
 			sub.inOld = true
-			return sub.eval(inner)
+			return sub.eval(x.X)
 		}
 		return env.eval(x.X)
 	case *ast.Ident:
